@@ -21,14 +21,20 @@ func prefixFilter(r *RuleResult, rule, title string, floor int, prefixes ...stri
 
 const notBehaviour = " These are necessary structural clauses of the property, decided for all paths of the current source; the behaviour as a whole (see 'Not decided') is not claimed."
 
+// ringIndexRule: the ring-slice index discipline (R19b-index), shared by C05, C08, C11 and C17.
+func ringIndexRule(c *Ctx) *RuleResult {
+	return prefixFilter(c.rule("R19", ruleR19), "R19", "RING: the ring slice is indexed only by start, end or (start+i) % capacity", 1, "R19b-index:")
+}
+
 func init() {
 	properties["C01"] = propDef{run: func(c *Ctx) *PropertyRun {
-		return pr("other", "Decided: (R12b–e) the cached size of every tree moves only with the structure — replace-on-equal paths of Put touch neither counter nor links and report 'nothing added', decrements are guarded by 'found', increments travel with allocate-and-link; (R11) every child-link store has its parent-link twin; (R10) the red-black rotations and fix-up arms are mirror images; (R15) LinkedHashMap table and order list gain/lose a key on the same paths; (R16) BidiMap pairing; (R24) HashMap is the Go map; (R20) TreeMap delegates each operation to the same-named tree operation. Not decided: that a lookup after an arbitrary history finds the last value — the correctness of the red-black / AVL / B-tree algorithms themselves (which case fires for which shape); a recolouring mistake that keeps links, counters and mirror arms consistent is not detected."+notBehaviour,
+		return pr("other", "Decided: (R12b–e) the cached size of every tree moves only with the structure — replace-on-equal paths of Put touch neither counter nor links and report 'nothing added', decrements are guarded by 'found', increments travel with allocate-and-link; (R11) every child-link store has its parent-link twin; (R10) the red-black rotations and fix-up arms are mirror images; (R15) LinkedHashMap table and order list gain/lose a key on the same paths; (R16) BidiMap pairing; (R24) HashMap is the Go map; (R20) TreeMap delegates each operation to the same-named tree operation; (R13a) every comparator-driven descent (Put, Get, Remove, lookup of all three trees) branches on the comparator's full int result with one orientation — lookups and insertions take the same way down (a narrowed or re-oriented verdict in one of them loses keys). Not decided: that a lookup after an arbitrary history finds the last value — the correctness of the red-black / AVL / B-tree algorithms themselves (which case fires for which shape); a recolouring mistake that keeps links, counters and mirror arms consistent is not detected."+notBehaviour,
 			c.rule("R12", ruleR12), c.rule("R11", ruleR11),
 			prefixFilter(c.rule("R10", ruleR10), "R10", "MIRROR: red-black rotations, fix-up arms, Put/lookup arms; AVL GetNode/put/remove arms", 13, "R10:trees/redblacktree.Tree.rotate", "R10:trees/redblacktree.Tree.insertCase", "R10:trees/redblacktree.Tree.deleteCase", "R10:trees/redblacktree.Tree.replaceNode", "R10:trees/redblacktree.Node.sibling", "R10:trees/redblacktree.Tree.Put", "R10:trees/redblacktree.Tree.lookup", "R10:trees/avltree.Tree.GetNode", "R10:trees/avltree.Tree.put", "R10:trees/avltree.Tree.remove"),
 			prefixFilter(c.rule("R15", ruleR15), "R15", "LINKED: LinkedHashMap table ↔ order list", 5, "R15a:maps/linkedhashmap", "R15b:maps/linkedhashmap", "R15c:maps/linkedhashmap", "R15w:maps/linkedhashmap", "R15d:maps/linkedhashmap"),
 			c.rule("R16", ruleR16), prefixFilter(c.rule("R24", ruleR24), "R24", "HASH: HashMap is the Go map", 5, "R24:maps/hashmap"), rolesFor(c, "C01"),
-			prefixFilter(c.rule("R21b", ruleR21b), "R21b", "B-tree: rebalance is keyed by the node's own key", 1, "R21b:btree.rebalance-key"))
+			prefixFilter(c.rule("R21b", ruleR21b), "R21b", "B-tree: rebalance is keyed by the node's own key", 1, "R21b:btree.rebalance-key"),
+			prefixFilter(c.rule("R13", ruleR13), "R13", "ORDER: comparator-driven descents use one orientation and the full verdict", 10, "R13a:"))
 	}}
 	properties["C02"] = propDef{run: func(c *Ctx) *PropertyRun {
 		return pr("other", "Decided: (R13a) all 10 comparator-driven descents relate probe and stored key with one orientation (less → left/low, greater → right/high, equal → found); (R13b) keys are never compared with Go operators in comparator-ordered packages; (R20) Min/Max/Floor/Ceiling/Values/Keys delegate to the matching tree operation; (R10) Floor↔Ceiling, Left↔Right, Min↔Max, iterator Next↔Prev, rotations and fix-up arms are mirror images under μ. Not decided: that rotations/splits/merges preserve the in-order sequence; sortedness of Keys() as such; B-tree per-node binary-search bounds; behaviour under a comparator that is not a strict weak order."+notBehaviour,
@@ -36,8 +42,8 @@ func init() {
 			prefixFilter(c.rule("R21b", ruleR21b), "R21b", "B-tree: rebalance is keyed by the node's own key", 1, "R21b:btree.rebalance-key"))
 	}}
 	properties["C03"] = propDef{run: func(c *Ctx) *PropertyRun {
-		return pr("other", "Decided: (R5a) every use of an index parameter of Get/Remove/Insert/Set/Swap on the three lists is dominated by withinRange(index)==true; (R5b) with an out-of-range index nothing is written except the documented append (a call to Add guarded by index == size); (R23w) withinRange ≡ 0 <= i < Size() on all three; (R7) an empty variadic list leaves no nil pointer to dereference; (R12b,c,e) the linked lists' size counters move only with allocate-and-link / guarded unlink; (R23s) Sort = SortFunc(Values(), comparator) then Clear; Add; (R23c) Contains(xs...) exactness; (R20) Append ≡ Add. Not decided: that pointer surgery in the linked Insert/Remove yields the spliced sequence; traversal-direction arithmetic; array-list grow/shrink thresholds; IndexOf results."+notBehaviour,
-			c.rule("R5", ruleR5), c.rule("R7", ruleR7), c.rule("R25", ruleR25), c.rule("R27", ruleR27),
+		return pr("other", "Decided: (R5a) every use of an index parameter of Get/Remove/Insert/Set/Swap on the three lists is dominated by withinRange(index)==true; (R5b) with an out-of-range index nothing is written except the documented append (a call to Add guarded by index == size); (R23w) withinRange ≡ 0 <= i < Size() on all three; (R7) an empty variadic list leaves no nil pointer to dereference; (R12b,c,e) the linked lists' size counters move only with allocate-and-link / guarded unlink; (R23s) Sort = SortFunc(Values(), comparator) then Clear; Add; (R23c) Contains(xs...) exactness; (R20) Append ≡ Add; (R30) the array list's length — its Size() — is replayed symbolically through every method: Add/Insert grow it by exactly len(values), Remove shrinks it by one, growBy(n) by n, resize(l, c) sets l, shrink/Sort/Swap/Set keep it, Clear zeroes it (reallocation thresholds cannot pad or truncate the sequence). Not decided: that pointer surgery in the linked Insert/Remove yields the spliced sequence; traversal-direction arithmetic; array-list grow/shrink thresholds; IndexOf results."+notBehaviour,
+			c.rule("R5", ruleR5), c.rule("R7", ruleR7), c.rule("R25", ruleR25), c.rule("R27", ruleR27), c.rule("R30", ruleR30),
 			prefixFilter(c.rule("R12", ruleR12), "R12", "SIZE: linked-list counters", 6, "R12b:lists/", "R12c:lists/", "R12e:lists/"),
 			prefixFilter(c.rule("R23", ruleR23), "R23", "LISTS: Contains, Sort, withinRange of the three lists", 9, "R23c:lists/", "R23s:lists/", "R23w:lists/"),
 			rolesFor(c, "C03"))
@@ -66,8 +72,8 @@ func init() {
 			c.rule("R21", ruleR21), c.rule("R21b", ruleR21b), c.rule("R11", ruleR11))
 	}}
 	properties["C08"] = propDef{run: func(c *Ctx) *PropertyRun {
-		return pr("other", "Decided: (R14) all 18 iterator types follow the cursor protocol: index cursors step exactly when inside the bound and saturate at n / -1, report true exactly when the new index is in 0..n-1, Begin/End store -1/n, linked cursors keep the element pointer in step, wrappers forward, tree cursors start at leftmost/rightmost and saturate at their sentinels, First ≡ Begin;Next, Last ≡ End;Prev, NextTo/PrevTo are the canonical search loop over (Index|Key, Value); (R10) Next↔Prev, First↔Last, NextTo↔PrevTo mirror images; (R11) the Parent links tree cursors climb; (R1) Index/Key/Value write nothing, movers write only the iterator. Not decided: that the element reached at position i is Values()[i]; B-tree climb/descend index logic; heap level-sort."+notBehaviour,
-			c.rule("R14", ruleR14), c.rule("R29", ruleR29),
+		return pr("other", "Decided: (R14) all 18 iterator types follow the cursor protocol: index cursors step exactly when inside the bound and saturate at n / -1, report true exactly when the new index is in 0..n-1, Begin/End store -1/n, linked cursors keep the element pointer in step, wrappers forward, tree cursors start at leftmost/rightmost and saturate at their sentinels, First ≡ Begin;Next, Last ≡ End;Prev, NextTo/PrevTo are the canonical search loop over (Index|Key, Value); (R10) Next↔Prev, First↔Last, NextTo↔PrevTo mirror images; (R11) the Parent links tree cursors climb; (R1) Index/Key/Value write nothing, movers write only the iterator; (R19b-index) the ring iterator's Value() reads the slot (start+index) % capacity — the same slot Values() lists at that position. Not decided: that the element reached at position i is Values()[i] for the other containers; B-tree climb/descend index logic; heap level-sort."+notBehaviour,
+			c.rule("R14", ruleR14), c.rule("R29", ruleR29), ringIndexRule(c),
 			prefixFilter(c.rule("R10", ruleR10), "R10", "MIRROR: iterator Next/Prev, First/Last, NextTo/PrevTo", 32, "R10:trees/redblacktree.Iterator", "R10:trees/avltree.Iterator", "R10:trees/avltree.Node", "R10:lists/", "R10:maps/", "R10:queues/", "R10:sets/", "R10:stacks/", "R10:trees/binaryheap", "R10:trees/btree.Iterator"),
 			prefixFilter(c.rule("R11", ruleR11), "R11", "PARENTLINK: the links tree cursors climb", 26, "R11:"),
 			filter(c.rule("R1", ruleR1), "R1", "PURE: iterator methods write only the iterator", 150, func(o Obligation) bool { return strings.Contains(o.Key, "Iterator).") }))
@@ -82,8 +88,8 @@ func init() {
 			prefixFilter(c.rule("R8", ruleR8), "R8", "LOADER: BidiMap FromJSON inserts through Put", 10, "R8:maps/hashbidimap", "R8a:maps/hashbidimap", "R8b:maps/hashbidimap", "R8c:maps/hashbidimap", "R8d:maps/hashbidimap", "R8:maps/treebidimap", "R8a:maps/treebidimap", "R8b:maps/treebidimap", "R8c:maps/treebidimap", "R8d:maps/treebidimap"))
 	}}
 	properties["C11"] = propDef{run: func(c *Ctx) *PropertyRun {
-		return pr("other", "Decided: (R9a) all 42 MarshalJSON/UnmarshalJSON are pure forwarders to ToJSON/FromJSON; (R9b) ToJSON serialises the logical view (Values(), the own iterator, a storage field that Values() copies, or the field FromJSON/Size delegate to) — never physical storage whose meaning needs other fields; (R9c) writer and reader use the same JSON kind and it is the kind the property assigns; (R9d) the slice handed to json.Marshal is never nil (an empty value container is [], not null); (R9e) hand-written objects use string keys; (R9f) the raw input of FromJSON reaches only the JSON decoder; (R8e) a forwarding loader is sound for its type. Not decided: equality of the reloaded contents (follows from C01–C06 + R8 only informally); element encodability."+notBehaviour,
-			c.rule("R9", ruleR9), c.rule("R8", ruleR8))
+		return pr("other", "Decided: (R9a) all 42 MarshalJSON/UnmarshalJSON are pure forwarders to ToJSON/FromJSON; (R9b) ToJSON serialises the logical view (Values(), the own iterator, a storage field that Values() copies, or the field FromJSON/Size delegate to) — never physical storage whose meaning needs other fields; (R9c) writer and reader use the same JSON kind and it is the kind the property assigns; (R9d) the slice handed to json.Marshal is never nil (an empty value container is [], not null); (R9e) hand-written objects use string keys; (R9f) the raw input of FromJSON reaches only the JSON decoder; (R8e) a forwarding loader is sound for its type; (R19b-index) the ring's Values() — what its ToJSON marshals — reads the slots (start+i) % capacity. Not decided: equality of the reloaded contents (follows from C01–C06 + R8 only informally); element encodability."+notBehaviour,
+			c.rule("R9", ruleR9), c.rule("R8", ruleR8), ringIndexRule(c))
 	}}
 	properties["C12"] = propDef{run: func(c *Ctx) *PropertyRun {
 		return pr("other", "Decided: for all 21 FromJSON — loaders decode into a fresh temporary, never live memory (R8a: atomic on error, replace not merge); every write to the receiver is guarded by err == nil (R8b); the receiver's Clear dominates every insertion (R8c: no prior element survives); elements enter only through the container's own exported insertion methods (R8d: sets deduplicate, trees sort, BidiMaps stay one-to-one, the ring keeps the last capacity-many, the heap re-heapifies — by the guarantees of those methods); forwarding loaders are sound because every insertion method of the type is a pure forwarder to the same field (R8e); (R6) a Go-map field that is assigned to can never become nil (the input null cannot make a later Put panic). Not decided: arbitrary follow-up operation sequences beyond 'inserted through the own insertion method' (then C01/C04 apply)."+notBehaviour,
@@ -110,7 +116,7 @@ func init() {
 	}}
 	properties["C15"] = propDef{run: func(c *Ctx) *PropertyRun {
 		return pr("other", "Decided: (R12f) on all 21 containers Empty() ≡ Size()==0, Full() ≡ Size()==capacity and the slice returned by Values()/Keys() is allocated with length Size() — all derive from one size term after forwarder inlining; (R12b–e) the six cached counters take only the forms old±1, old+len, 0, recomputation; decrements are guarded by success (never negative), increments travel with allocate-and-link; (R12cfg) comparator / B-tree order / ring capacity are written only while constructing a fresh container, so Clear keeps them; (R12clear) Clear resets what Size() and the traversal start from and forwards to Clear of every contained container; (R12str) String() starts with the container's documented name; (R1) every observer is pure. Not decided: 'behaves exactly like a fresh one after Clear' beyond those resets (requiring every field to be reset would alarm on benign edits — DESIGN §5)."+notBehaviour,
-			c.rule("R12", ruleR12), c.rule("R12g", ruleR12g), c.rule("R16", ruleR16),
+			c.rule("R12", ruleR12), c.rule("R12g", ruleR12g), c.rule("R16", ruleR16), c.rule("R30", ruleR30),
 			filter(c.rule("R1", ruleR1), "R1", "PURE: Size/Empty/Values/Keys/String write nothing", 99, func(o Obligation) bool {
 				for _, m := range []string{").Size", ").Empty", ").Values", ").Keys", ").String", ").Full"} {
 					if strings.HasSuffix(o.Key, m) {
@@ -128,9 +134,10 @@ func init() {
 			}), controlFor(c, "R2a", "R2b", "R2c"))
 	}}
 	properties["C17"] = propDef{run: func(c *Ctx) *PropertyRun {
-		return pr("other", "Decided: (R3) no library function can reach fmt.Print*/print/println/log/os.Stdout/os.Stderr — complete for the silence clause; (R4) explicit panics/exits exist only in the two documented constructors, guarded by the documented bound — complete for explicit panics; (R5a) every index parameter of the three lists is range-checked before use; (R6) a Go-map field that is assigned to can never be nil; (R7) an empty variadic list leaves no nil pointer to dereference; (R8a) the JSON decoder never writes live container state (it cannot corrupt it into a panicking one). Not decided: implicit panics that depend on heap-shape invariants (nil sibling in deleteCase*, Children[index] in the B-tree — a generic may-be-nil analysis drowns in false alarms there and a sound one needs the tree invariants); termination of the loops."+notBehaviour,
+		return pr("other", "Decided: (R3) no library function can reach fmt.Print*/print/println/log/os.Stdout/os.Stderr — complete for the silence clause; (R4) explicit panics/exits exist only in the two documented constructors, guarded by the documented bound — complete for explicit panics; (R5a) every index parameter of the three lists is range-checked before use; (R6) a Go-map field that is assigned to can never be nil; (R7) an empty variadic list leaves no nil pointer to dereference; (R8a) the JSON decoder never writes live container state (it cannot corrupt it into a panicking one); (R19b-wrap/index) in every method of the ring, loaders included, start and end are only reset to 0 or advanced with their wrap, and the ring slice is indexed only by them or modulo the capacity — no index can leave the slice; (R31) the arbitrary byte string given to the 42 loaders is only handed to the standard library or another loader, never indexed or sliced by library code. Not decided: implicit panics that depend on heap-shape invariants (nil sibling in deleteCase*, Children[index] in the B-tree — a generic may-be-nil analysis drowns in false alarms there and a sound one needs the tree invariants); termination of the loops."+notBehaviour,
 			c.rule("R3", ruleR3), c.rule("R4", ruleR4), c.rule("R5", ruleR5), c.rule("R6", ruleR6), c.rule("R7", ruleR7),
-			prefixFilter(c.rule("R8", ruleR8), "R8", "LOADER: the decoder never targets live state (R8a)", 14, "R8a:"), prefixFilter(c.rule("R21b", ruleR21b), "R21b", "AVL direction arguments / child indices are 0/1, ±1", 1, "R21b:avl.directions"), controlFor(c, "R3", "R4", "R6", "R7", "R8"))
+			prefixFilter(c.rule("R8", ruleR8), "R8", "LOADER: the decoder never targets live state (R8a)", 14, "R8a:"), prefixFilter(c.rule("R21b", ruleR21b), "R21b", "AVL direction arguments / child indices are 0/1, ±1", 1, "R21b:avl.directions"),
+			prefixFilter(c.rule("R19", ruleR19), "R19", "RING: start/end stay below capacity in every method (wrap), and the ring slice is indexed only through them", 2, "R19b-wrap:", "R19b-index:"), c.rule("R31", ruleR31), controlFor(c, "R3", "R4", "R6", "R7", "R8"))
 	}}
 	properties["C18"] = propDef{run: func(c *Ctx) *PropertyRun {
 		return pr("proof", "Decides the property completely modulo the trusted base: a conservative interprocedural effect/alias analysis (E1) over go/ssa shows that every read-only operation of every container, node and iterator type performs no store into container/node memory, into an iterator it did not create, or into a global, on any path and for all inputs; by the Go memory model (a data race needs a write) concurrent readers cannot race, and each call's result is a function of memory nobody writes. R1b: every call through a func value passes only opaque elements; R1c: iterators are never stored in shared memory; A5 scan: no unsafe/cgo/linkname.",
